@@ -119,9 +119,20 @@ def w_family(ctx, rng, idx):
             elif op == 'partial2':
                 call('transform.%s.partial2' % fam, f.partial2, t, k, k2, prop=P, refusals=refus)
             elif op == 'gradient':
-                call('transform.%s.gradient' % fam, f.gradient, t, prop=P, refusals=refus)
+                ok_, r_ = call('transform.%s.gradient' % fam, f.gradient, t, prop=P, refusals=refus)
+                if ok_ and isinstance(r_, np.ndarray) and r_.flags.writeable and rng.random() < 0.5:
+                    # the caller accumulates into what it was handed (g = f.gradient(x); g *= c; g += ...): its own array - the same object is
+                    # asked again right away and at the next point
+                    monitors_basis.forget(r_)
+                    r_ *= 3.0
+                    r_ += 1.0
+                    call('transform.%s.gradient' % fam, f.gradient, t, prop=P, refusals=refus, tags=['after_caller_edited_earlier_result'])
             else:
-                call('transform.%s.hessian' % fam, f.hessian, t, prop=P, refusals=refus)
+                ok_, r_ = call('transform.%s.hessian' % fam, f.hessian, t, prop=P, refusals=refus)
+                if ok_ and isinstance(r_, np.ndarray) and r_.flags.writeable and rng.random() < 0.5:
+                    monitors_basis.forget(r_)
+                    r_ -= 2.0
+                    call('transform.%s.hessian' % fam, f.hessian, t, prop=P, refusals=refus, tags=['after_caller_edited_earlier_result'])
         ctx.check('transform.%s' % fam, 'evaluation_point_unchanged', np.array_equal(t, t0), ['family=' + fam], {'before': t0, 'after': t}, prop=P)
         if rng.random() < 0.5:  # a fresh object with the same parameters for the next point
             f = copy.deepcopy(f0)
